@@ -132,7 +132,7 @@ fn run_faults(cx: &mut CaseCx, case: &Value) {
   let field_of = |off: usize| fmap.iter().find(|f| off >= f.1 && off < f.1 + f.2).map(|f| f.0).unwrap_or("?");
   let lo = case["lo"].as_u64().unwrap() as usize;
   let hi = (case["hi"].as_u64().unwrap() as usize).min(enc.len());
-  let max_len = if cx.tier.thorough() { n + 1 } else { n };
+  let max_len = if cx.tier.thorough() || t <= 2 { n + 1 } else { n };
   // sequences over symbols 0..n (honest) and n (= F) that contain F
   let mut seqs: Vec<Vec<usize>> = vec![];
   for_each_seq(n + 1, max_len, |s| {
@@ -188,6 +188,50 @@ fn run_faults(cx: &mut CaseCx, case: &Value) {
           Ok(Err(_)) => cx.count("rejected", 1),
           Err(p) => cx.viol("C05/recover-panicked", format!("recover panicked: {}", p), d()),
         }
+      }
+    }
+  }
+  // element-level faults (only in the chunk that starts at offset 0, so that they run once per configuration):
+  // the whole 24-byte x or y replaced by 0, 1, p-1, another share's x / y
+  if lo == 0 {
+    let other = x.shares[(k + 1) % n].to_bytes();
+    let one = {
+      let mut b = [0u8; 24];
+      b[0] = 1;
+      b
+    };
+    let pm1 = rm::le24(&(rm::p() - num_bigint::BigUint::from(1u32)));
+    for (fname, foff) in [("S.x", 8usize), ("S.y", 32usize)] {
+      for (how, val) in [("= 0", [0u8; 24].to_vec()), ("= 1", one.to_vec()), ("= p-1", pm1.to_vec()), ("= the next share's value", other[foff..foff + 24].to_vec()), ("= the other coordinate", enc[if foff == 8 { 32 } else { 8 }..if foff == 8 { 56 } else { 32 }].to_vec())] {
+        let mut fb = enc.clone();
+        fb[foff..foff + 24].copy_from_slice(&val);
+        if fb == enc {
+          continue;
+        }
+        let fshare = match guard(|| Share::from_bytes(&fb)) {
+          Ok(Some(s)) => s,
+          _ => continue,
+        };
+        cx.nontrivial(fnv_str(&format!("{}|{}|{}", case, fname, how)));
+        for seq in &seqs {
+          let d = || json!({"faulty_share": k, "field": fname, "fault": how, "collection": seq.iter().map(|&i| if i == n { "F".to_string() } else { format!("h{}", i) }).collect::<Vec<_>>()});
+          let shares: Vec<Share> = seq.iter().map(|&i| if i == n { fshare.clone() } else { x.shares[i].clone() }).collect();
+          cx.eval();
+          match adss_recover(&shares) {
+            Ok(Ok(mm)) => {
+              if mm != m {
+                cx.viol(format!("C05/wrong-message/{}", fname), format!("recovery returned a message that was never shared ({} {})", fname, how), d());
+              } else if seq[0] == n && !(t == 1 && fname == "S.x") {
+                cx.viol(format!("C05/faulty-first-share-accepted/{}", fname), format!("the first share's {} was replaced ({}) and recovery still succeeded", fname, how), d());
+              } else {
+                cx.count("ok_fault_not_in_effect", 1);
+              }
+            }
+            Ok(Err(_)) => cx.count("rejected", 1),
+            Err(p) => cx.viol("C05/recover-panicked", format!("recover panicked: {}", p), d()),
+          }
+        }
+        cx.count("element_faults", 1);
       }
     }
   }
@@ -263,10 +307,10 @@ pub fn spec() -> PropSpec {
       },
       Check {
         name: "single-faults",
-        rule: "every byte of the encoded share k x 5 byte faults, re-decoded; every sequence over {F, h_0..h_t} containing F; through adss::recover and through sta_rs::share_recover; distinct = (share, offset, fault) that still decode",
+        rule: "every byte of the encoded share k x 5 byte faults, plus whole-element replacements of x and y by 0, 1, p-1, the next share's value, the other coordinate, re-decoded; every sequence over {F, h_0..h_t} containing F; through adss::recover and through sta_rs::share_recover; distinct = (share, offset, fault) that still decode",
         gen: |tier| {
           let mut v = vec![];
-          let ts: &[u64] = if tier.thorough() { &[1, 2, 3] } else { &[1, 2] };
+          let ts: &[u64] = if tier.thorough() { &[1, 2, 3, 4] } else { &[1, 2, 3] };
           for &t in ts {
             for k in [0u64, t] {
               for (mlen, star) in [(32u64, false), (5, true)] {
